@@ -85,6 +85,22 @@ def validator_shape(f):
     iter_props = any((f.decl(x) or {}).get("n") == "get_properties" for l in loops for x in walk(l) if x["k"] == "CXXMemberCallExpr")
     # the value compiled is the property's value
     from_value = any((f.decl(x) or {}).get("n") == "get_value" for c in compiles for x in walk(c) if x["k"] == "CXXMemberCallExpr")
+    # table form: the validator walks an explicit array of property names and looks each one up
+    table = None
+    finds = [n for n in f.nodes() if n["k"] == "CXXMemberCallExpr" and (f.decl(n) or {}).get("n") == "find_property"]
+    if not iter_props and finds and loops:
+        names = set()
+        for n in f.nodes():
+            if n["k"] == "VarDecl" and n.get("c") and n["c"][0] is not None and \
+                    strip_casts(n["c"][0])["k"] == "InitListExpr":
+                names |= {x["s"] for x in walk(n["c"][0]) if x["k"] == "StringLiteral" and x.get("s")}
+        if names:
+            table = names
+    if table is not None:
+        ok = ok_false and from_value
+        why = "return-false-on-null-compile=%s, looks up each of %d listed property names, compiles get_value()=%s" % (
+            ok_false, len(table), from_value)
+        return table, ok, why
     ok = ok_false and iter_props and from_value and bool(suffix)
     why = "return-false-on-null-compile=%s, iterates get_properties()=%s, compiles get_value()=%s, suffix=%r" % (
         ok_false, iter_props, from_value, suffix)
@@ -131,8 +147,8 @@ def run(ctx, P):
         v = P.funcs[gate]
         ctx.analysed(v)
         suffix, ok, why = validator_shape(v)
-        ctx.ob("R-RXVALID/G2", "%s rejects a section with an uncompilable *%s property" % (v.n, suffix or "?"), ok,
-               v.loc(), why)
+        ctx.ob("R-RXVALID/G2", "%s rejects a section with an uncompilable %s property" % (
+            v.n, "listed" if isinstance(suffix, set) else "*" + (suffix or "?")), ok, v.loc(), why)
     # ---------------- G3
     names = set()
     readers = [f for f in P.all_funcs() if f.n in READERS and not f.dep]
@@ -146,6 +162,13 @@ def run(ctx, P):
     rx_names = sorted({(fn, nm) for fn, nm, _ in names if "regex" in nm})
     ctx.floor("R-RXVALID/G3", "regular-expression property names looked up by the readers", len(rx_names), 20)
     for fn, nm in rx_names:
+        if isinstance(suffix, set):
+            ok = nm in suffix
+            ctx.ob("R-RXVALID/G3", "%s: property %s" % (fn, nm), ok, "",
+                   "name is in the validator's table of %d properties" % len(suffix) if ok else
+                   "the validator's table of property names does not contain this property: its pattern is never "
+                   "compiled before the section is accepted")
+            continue
         ok = bool(suffix) and nm.endswith(suffix)
         ctx.ob("R-RXVALID/G3", "%s: property %s" % (fn, nm), ok, "",
                "name ends with the validator's suffix %r" % suffix if ok else
